@@ -270,12 +270,78 @@ func runC10(c *Ctx, r *Report) {
 		r.Check(okp, "R-C10.5", r.Key("R-C10.5", fe, "trim", ""), call.Pos(), "the number of entries kept is proved ≥ the number of supplied entries", "cannot show that fromEntry keeps at least as many entries as were supplied ("+failed+"): with fewer kept than supplied, putting the supplied entries back drops some of them (a head is lost)", facts...)
 	})
 	r.Floor("R-C10.5", "tail trims in fromEntry", ntrim, 1)
+	// R-C10.10: putting the cut-off supplied entries back never removes another supplied entry
+	r.Doc("R-C10.10", "when supplied entries that fell outside the kept tail are put back, room is made only by dropping entries that were not supplied: no cut of the kept list by position whose size is the number of entries put back")
+	{
+		snapT := p.Named("iface", "Snapshot")
+		var vals ssa.Value
+		allInstrs(sfe, false, func(ins ssa.Instruction) {
+			if st, ok := ins.(*ssa.Store); ok {
+				if f, fa := fieldOf(st.Addr); f != nil && f.Name() == "Values" && namedOf(fa.X.Type()) == snapT {
+					vals = st.Val
+				}
+			}
+		})
+		var diffCall *ssa.Call
+		positional := ""
+		if vals != nil {
+			sl := backSlice(vals, nil)
+			for x := range sl {
+				if call, ok := x.(*ssa.Call); ok {
+					if f := calleeOf(call); f != nil && f.Name() == "Difference" {
+						diffCall = call
+					}
+				}
+			}
+			isLenOfDiff := func(v ssa.Value) bool {
+				for y := range backSlice(v, nil) {
+					if call, ok := y.(*ssa.Call); ok {
+						if b, ok := call.Call.Value.(*ssa.Builtin); ok && b.Name() == "len" && len(call.Call.Args) == 1 {
+							for z := range backSlice(call.Call.Args[0], nil) {
+								if z == ssa.Value(diffCall) && diffCall != nil {
+									return true
+								}
+							}
+						}
+					}
+				}
+				return false
+			}
+			for x := range sl {
+				switch y := x.(type) {
+				case *ssa.Slice:
+					if y.Parent() == sfe && ((y.Low != nil && isLenOfDiff(y.Low)) || (y.High != nil && isLenOfDiff(y.High))) {
+						positional = "slice expression at " + p.Pos(y.Pos())
+					}
+				case *ssa.Call:
+					if y.Parent() != sfe {
+						continue
+					}
+					if cal := y.Call.StaticCallee(); cal != nil && p.firstParty(calleePkg(cal)) {
+						if _, isSlice := y.Type().Underlying().(*types.Slice); isSlice {
+							for ai, a := range y.Call.Args {
+								if isIntType(a.Type()) && isLenOfDiff(a) && paramCutsByPosition(p, cal, ai, 0) {
+									positional = cal.Name() + "(…) at " + p.Pos(y.Pos())
+								}
+							}
+						}
+					}
+				}
+			}
+		}
+		key := r.Key("R-C10.10", fe, "put-back", "")
+		if vals == nil || diffCall == nil {
+			r.Violate("R-C10.10", key, fe.Body.Pos(), "fromEntry no longer puts the supplied entries that fell outside the kept tail back into the result (no Difference(kept, supplied) in the snapshot's values)")
+		} else {
+			r.Check(positional == "", "R-C10.10", key, diffCall.Pos(), "room for the entries put back is made by membership, not by position",
+				"fromEntry makes room for the supplied entries it puts back by cutting the kept list by position ("+positional+", by the number of entries put back): the entries cut are the oldest kept ones whether or not they were supplied themselves — a supplied entry that sorts among the oldest kept entries is dropped (sources [A1,B7,A10], limit 4: result [A1,A8,A9,A10], B7 lost)")
+		}
+	}
 	// R-C10.6
 	cnt := map[string]int{}
 	guardObligations(c, r, repoLockEngine(c), "R-C10.6", map[string]bool{"Fetcher": true}, cnt)
 	r.Floor("R-C10.6", "Fetcher guarded field accesses", cnt["Fetcher.tasksCache"]+cnt["Fetcher.maxClock"]+cnt["Fetcher.minClock"], 6)
 
-	r.List("fromEntry: result = Difference(sliced, sourceEntries) ++ entrySliceRange(...): length bound needs a summary of entry.Difference (loop over maps) — beyond the linear prover; not armed")
 
 	// R-C10.3
 	n := 0
@@ -416,4 +482,68 @@ func mayAliasParam(v ssa.Value, sf *ssa.Function) string {
 		return ""
 	}
 	return walk(v)
+}
+
+// paramCutsByPosition: the integer parameter i of g ends up as a bound of a slice expression (in g or in a
+// first-party callee): g removes elements by position. A parameter that is only compared and counted does not.
+func paramCutsByPosition(p *Prog, g *ssa.Function, i int, depth int) bool {
+	if g == nil || len(g.Blocks) == 0 || i >= len(g.Params) || depth > 3 {
+		return false
+	}
+	derived := map[ssa.Value]bool{g.Params[i]: true}
+	for changed := true; changed; {
+		changed = false
+		allInstrs(g, true, func(ins ssa.Instruction) {
+			mark := func(v ssa.Value) {
+				if !derived[v] {
+					derived[v] = true
+					changed = true
+				}
+			}
+			switch x := ins.(type) {
+			case *ssa.BinOp:
+				if (derived[x.X] || derived[x.Y]) && isIntType(x.Type()) {
+					mark(x)
+				}
+			case *ssa.UnOp:
+				if derived[x.X] {
+					mark(x)
+				}
+			case *ssa.Phi:
+				for _, e := range x.Edges {
+					if derived[e] {
+						mark(x)
+					}
+				}
+			case *ssa.Convert:
+				if derived[x.X] {
+					mark(x)
+				}
+			case *ssa.Store:
+				if derived[x.Val] {
+					if a, ok := x.Addr.(*ssa.Alloc); ok {
+						mark(a)
+					}
+				}
+			}
+		})
+	}
+	cut := false
+	allInstrs(g, true, func(ins ssa.Instruction) {
+		switch x := ins.(type) {
+		case *ssa.Slice:
+			if (x.Low != nil && derived[x.Low]) || (x.High != nil && derived[x.High]) {
+				cut = true
+			}
+		case *ssa.Call:
+			if cal := x.Call.StaticCallee(); cal != nil && p.firstParty(calleePkg(cal)) {
+				for ai, a := range x.Call.Args {
+					if derived[a] && paramCutsByPosition(p, cal, ai, depth+1) {
+						cut = true
+					}
+				}
+			}
+		}
+	})
+	return cut
 }
